@@ -1076,10 +1076,19 @@ class Sched:
             self.sems[nxt].release()
 
 
-def forced_run(pf, ops, plan, shared=None, timeout=30.0, root=None, opcodes=False):
+def iteration_prefixes():
+    """the package plus the pure-Python library code that ITERATES over containers it is handed (copy.deepcopy walks every nested
+    dict with `for k, v in x.items()`; pickle's Python fallback and json's encoder likewise): a thread can be preempted there too"""
+    import copy
+    import json as _json
+    import pickle as _pickle
+    return (pkg_prefix(), copy.__file__, _pickle.__file__, os.path.dirname(_json.__file__) + os.sep)
+
+
+def forced_run(pf, ops, plan, shared=None, timeout=30.0, root=None, opcodes=False, deep=False):
     """Run ops[i] in thread i on the shared handle under the deterministic scheduler.
-    Returns (raw results, steps per thread, deadlocked?)."""
-    prefix = pkg_prefix()
+    Returns (raw results, steps per thread, deadlocked?).  deep: line events of copy / pickle / json frames count too."""
+    prefix = iteration_prefixes() if deep else pkg_prefix()
     n = len(ops)
     sch = Sched(n, plan, timeout)
     res = [None] * n
@@ -1127,13 +1136,13 @@ def forced_run(pf, ops, plan, shared=None, timeout=30.0, root=None, opcodes=Fals
     return res, list(sch.steps), dead
 
 
-def count_steps(pf, op, shared=None, opcodes=False):
+def count_steps(pf, op, shared=None, opcodes=False, deep=False):
     """number of line (or opcode) events of op run alone (on this handle)"""
     n = [0]
 
     def on_line(frame):
         n[0] += 1
-    sys.settrace(make_tracer(pkg_prefix(), on_line, opcodes))
+    sys.settrace(make_tracer(iteration_prefixes() if deep else pkg_prefix(), on_line, opcodes))
     try:
         run_op_safe(pf, op, shared)
     finally:
